@@ -16,7 +16,7 @@ from vf.families import BENCH_MIN_N, BENCH_NAMES
 ID = "C19"
 LEVEL = "exploration"
 RULE = (
-    "Hypothesis draws (function, n in 1..12 [2.. for chained], x in [-5,5]^n on a 1e-4 grid plus an irrational offset; half of the cases re-use the same array object after moving it in place by a drawn step; a quarter also pass the point as a plain list or tuple, half of the rest as a strided / column / reversed view or a read-only array); "
+    "Hypothesis draws (function, n in 1..12 [2.. for chained], x in [-5,5]^n on a 1e-4 grid plus an irrational offset, a quarter of the cases with coordinates placed on special values (zeros of Griewank's cosine factors, multiples of pi, integers, half-integers, 0); half of the cases re-use the same array object after moving it in place by a drawn step; a quarter also pass the point as a plain list or tuple, half of the rest as a strided / column / reversed view or a read-only array); "
     "non-trivial = n>=2 and no coordinate within 1e-3 of an integer or half-integer (where the test-suite's integer points live); "
     "distinct = distinct (function, x)"
 )
@@ -48,6 +48,17 @@ def case(draw, name):
     ks = draw(st.lists(st.integers(-49999, 49999), min_size=n, max_size=n))
     off = draw(st.sampled_from([0.0, math.pi * 1e-5, math.e * 1e-5]))
     x = [k * 1e-4 + off for k in ks]
+    # special coordinate values: zeros of the factors / terms that closed-form gradients divide by or branch on
+    # (cos(x_i / sqrt(i)) = 0 for Griewank, integers and half-integers for Rastrigin, 0 and +-1 for the polynomials)
+    if draw(st.integers(0, 3)) == 0:
+        for i in range(n):
+            if draw(st.booleans()):
+                kind = draw(st.sampled_from(["cos0", "cos0", "pi", "int", "half", "zero"]))
+                m = draw(st.integers(-3, 3))
+                r = math.sqrt(i + 1)
+                v = {"cos0": (math.pi / 2 + m * math.pi) * r, "pi": m * math.pi * r, "int": float(m), "half": m + 0.5, "zero": 0.0}[kind]
+                if abs(v) <= 5.0:
+                    x[i] = v + draw(st.sampled_from([0.0, 0.0, 1e-12, -1e-9]))
     out = {"bench": name, "x": x, "container": draw(st.sampled_from(["ndarray", "ndarray", "list", "tuple", "strided", "column", "reversed", "readonly"]))}
     if draw(st.booleans()):
         out["step"] = [k * 1e-3 for k in draw(st.lists(st.integers(-300, 300), min_size=n, max_size=n))]
@@ -66,8 +77,8 @@ def check(spec, stats=None):
         raise Discard("ackley near origin")
     if name == "griewank":
         den = np.sqrt(np.arange(1, n + 1))
-        if np.any(np.abs(np.cos(x / den)) < 1e-3):
-            raise Discard("griewank closed-form singular set")
+        if np.any(np.cos(x / den) == 0.0):
+            raise Discard("griewank: a cosine factor is exactly 0.0 in floating point (never happens for a float argument)")
     fx = f(x.copy())
     require(np.ndim(fx) == 0, "value-is-scalar", f"{name}: ndim={np.ndim(fx)}")
     require(np.isrealobj(np.asarray(fx)) and np.isfinite(fx), "value-is-real", f"{name}: f={fx!r}")
@@ -138,7 +149,7 @@ def check(spec, stats=None):
         x2 = x + step
         if name == "ackley" and np.linalg.norm(x2) < 0.15:
             return
-        if name == "griewank" and np.any(np.abs(np.cos(x2 / np.sqrt(np.arange(1, n + 1)))) < 1e-3):
+        if name == "griewank" and np.any(np.cos(x2 / np.sqrt(np.arange(1, n + 1))) == 0.0):
             return
         g2 = np.asarray(g(buf))
         f2 = f(buf)
